@@ -9,6 +9,13 @@ Case kinds
           `LLMRails.generate`, all generation modes (search territory: oracle only, no model); includes the
           stored-then-quoted family: LLM text that is stored (last bot message, generated value, action result) and quoted
           in a LATER step/turn by a predefined message (`$var`, `{{ var }}`), a `bot $var` step or a 2.x `bot say $v`
+  asm     a list of NEW EVENTS handed to the real `LLMRails.generate_async` (the runtime's answer is replaced): the response assembly
+          that runs after the runtime returned, outside every try/except, vs Models/LlmAssemble.lean (spec regenerated from llmrails.py)
+  e2e/ctrl (phase 5) the texts that the code AFTER the generation actions interprets - string literals that llmrails.py, the runtimes,
+          the verbose / streaming handlers compare with or splice around a text, scanned from the source by the translator - as the
+          exact message at every message position of every mode (first and later utterance of the call), near misses, flow forms;
+          and the public interfaces of `generate` (options with every log on, `prompt=`, explicit state, streaming handler, an
+          instance created with verbose=True, an empty events cache = second instance / restart)
 Static tie: ast scan of both generation.py files for every call of a render function and the provenance of its argument.
 """
 import ast
@@ -31,6 +38,7 @@ RULE = ("fn/act: structured completions (lines built from Colang/verbose prefixe
         "line boundary and whitespace class, template/variable syntax, escape_flow_name keywords) plus a malformed stream over a "
         "hostile alphabet; e2e: every base conversation of every mode (dialog, single_call, multi_step, general, passthrough, "
         "v2 intent/flow/value/utterance, and the stored-then-quoted conversations dialog_q/single_call_q/v2_quote) with a hostile or mutated completion at each LLM call position; "
+        "control family: every string literal the post-processing compares with a text (scanned from the source) as the exact message at every message position of every mode incl. later-utterance bases, near misses, flow forms, through every public interface of generate; asm: event lists over the assembly's type / script literals and near misses; "
         "quote family: a marked payload of template/variable/escape tokens at the position whose text is stored and later quoted. non-trivial = the text has "
         ">= 2 lines or a recognised prefix/quote/template token (fn/act), or a hostile completion was actually consumed (e2e); "
         "distinct = distinct case JSON.")
@@ -40,11 +48,14 @@ TRUSTED_BASE = [
     "CPython str methods are the reference for Py/Str.lean (whitespace and line-boundary tables compared exhaustively on every run)",
     "Jinja2, literal_eval, the Colang 1.0 parser and compute_next_steps are ORACLES of the models (any result, any exception); their real behaviour is observed by the differential tasks (parse spy, literal_eval classification, step table) and exercised end-to-end",
     "dataflow translator harness/translate/c17.py: provenance roots by name, intra-procedural, closures = join of what their body reads",
+    "assembly translator harness/translate/c17.py::assembly (shape of the two `for event in new_events` loops of generate_async -> Generated/C17Assembly.lean; any other shape breaks the tie) and the literal scan control_literals (which texts the generator feeds)",
 ]
 ASSUMPTIONS = [
     "the theorems cover the text post-processing inside the generation actions, the dispatcher's containment, the try/except structure of v1 _process_start_flow and the generate_events loop (parser / compute_next_steps as oracles) and the literal_eval wrapper of 2.x GenerateValueAction; v2 AddFlowsAction + the execution of generated flows, eval_expression and Jinja itself are search territory",
     "multi_step_never_raises_repaired and generate_value_v2_total are about the REPAIRED code (fixes/C17-v1-flow-error-ends-turn.diff, fixes/C17-v2-generated-value-plain.diff); on the unpatched tree the as-is theorems are the partial ones and the differential accepts either behaviour inside the open findings' regions",
     "escape_flow_name's `\\b\\d+\\b` step is modelled for ASCII text only (non-ASCII strings are compared up to the replace chain by the oracle-only stream)",
+    "assemble_total / assembleV2_total assume that the events the runtimes create carry the keys their type promises (`script`, `final_script`, `action_uid`); without it only KeyError is possible (assemble_only_key_error); the `asm` differential feeds event lists with and without these keys",
+    "the control script `(remove last message)` as LLM-written message text IS interpreted by generate_async (the reply loses the previous utterance): the property statement speaks of template and variable syntax, so this is recorded (design_notes/C17.md, phase 5), not reported",
     "completions longer than 4000 characters are only run end-to-end (the model driver recurses over List Char)",
 ]
 
@@ -87,7 +98,7 @@ def translate():
     _TINFO.update(info)
     a = info.get("assembly", {})
     _TINFO["assembly"] = a
-    _TINFO["assembly_literals"] = [a.get(k) for k in ("utter_type", "remove_script", "exception_suffix", "v2_finished") if a.get(k)]
+    _TINFO["assembly_literals"] = [a.get(k) for k in ("utter_type", "remove_script", "exception_suffix", "v2_finished") if a.get(k)] or None
     return info
 
 
@@ -107,6 +118,8 @@ def static_tie():
     `if bot_intent in self.config.bot_messages`, on a value read from `self.bot_messages[...]`; `from_string`/`render`
     only inside `_render_string`.  v2 generation.py — exactly one `_render_string` call, on the flow docstring."""
     problems = []
+    if _TINFO.get("assembly_tie_broken"):
+        problems.append("response assembly of generate_async: " + _TINFO["assembly_tie_broken"] + " (Models/LlmAssemble.lean models the previous shape)")
     if _TINFO.get("sinks") is not None:
         got = [(x["file"].replace("nemoguardrails/", ""), x["function"], x["callee"], x["template"]) for x in _TINFO["sinks"] if "taskmanager" not in x["file"]]
         if got != EXPECTED_SINKS:
@@ -477,6 +490,13 @@ def as_flow_texts(lit):
             f"bot intent: bot {w}\nbot action: send {w}Finished(final_script=\"x\")", f"user intent: user {w}", f"  {lit}\nbot {lit}\n  \"{lit}\""]
 
 
+# texts whose REPLY (after the quote stripping of the general / message positions) begins or ends with a character that some consumer of
+# the reply may interpret: every punctuation class once, single and doubled, at both ends
+SHAPE_CHARS = ["\"", "'", "`", "{", "}", "[", "]", "(", ")", "<", ">", "$", "#", "%", "\\", "/", "&", "*", "_", "-", "=", "+", "|", "~", "^", "@", "!", "?", ":", ";", ",", "."]
+REPLY_SHAPES = [c + "x" for c in SHAPE_CHARS] + ["x" + c for c in SHAPE_CHARS] + [c + c + "x" + c + c for c in SHAPE_CHARS] + [c + c + "x" + c for c in SHAPE_CHARS] + [c + "x" + c + c for c in SHAPE_CHARS] + [
+    "{\"a\": 1}", "[1, 2]", "null", "true", "NaN", "-1", "0", "0x10", "1e999", "\"\\\"", "%s", "%(x)s", "{0}", "{}", "<b>x</b>", "&amp;", "x\ty", "\\u0041", "\\x41"]
+
+
 def api_choices(mode):
     if mode.startswith("v2"):
         return E.APIS_V2
@@ -504,14 +524,21 @@ def gen_control(rng, n, tier):
     if _TINFO.get("assembly_literals") is None:
         from ..translate import c17 as tr
 
-        a = tr.assembly()["assembly"]
+        try:
+            a = tr.assembly()["assembly"]
+        except TieBroken:
+            a = {}
         _TINFO["assembly"] = a
         _TINFO["assembly_literals"] = [a.get(k) for k in ("utter_type", "remove_script", "exception_suffix", "v2_finished") if a.get(k)]
+    if not _TINFO.get("assembly_literals"):
+        # the shape of the assembly is not understood (tie broken): every literal that generate_async compares with a text that looks
+        # like a script / type name is a core literal
+        _TINFO["assembly_literals"] = [x for x in ct.get("generate_async", []) if len(x) >= 6 and x not in ("assistant", "exception", "content", "generation", "event_created_at", "source_uid", "action_uid")]
     # near misses of the control script(s) of the assembly itself, same positions (an exact comparison must not be loosened / a second
     # site must not treat them as the control script)
     a = _TINFO.get("assembly") or {}
-    rm = a.get("remove_script")
-    if rm:
+    rms = [a["remove_script"]] if a.get("remove_script") else [x for x in _TINFO["assembly_literals"] if x.startswith("(")]
+    for rm in rms:
         for t in [rm + " ", " " + rm, rm.upper(), rm[:-1], rm + rm]:
             for mode, turns, script, mpos, fb in bases:
                 for pos in mpos:
@@ -549,12 +576,16 @@ def gen_control(rng, n, tier):
                         out.append(case)
     # (2) what the interfaces themselves do with the reply / the log: the whole hostile corpus as THE reply (general mode: the
     # completion is the message; cheap), through every public interface
-    gen_modes = [("general", ["zzz", "qqq"], "fb"), ("passthrough", ["zzz"], "fb")]
-    hs = [h for h in HOSTILE if len(h) <= 4000]
-    combos = [(h, api, gm) for h in hs for api in E.APIS_V1 if api != "messages" for gm in gen_modes]
+    # general mode: the FULL product (hostile text x interface; ~0.03 s per case); passthrough: a seeded sample
+    hs = [h for h in HOSTILE if len(h) <= 4000] + REPLY_SHAPES
+    for h in hs:
+        for api in E.APIS_V1:
+            if api not in ("messages", "verbose"):
+                out.append({"kind": "e2e", "mode": "general", "turns": ["zzz", "qqq"], "llm": [h, "Second."], "fallback": "fb", "pos": [0], "msgpos": [0], "api": api})
+    combos = [(h, api) for h in hs for api in E.APIS_V1 if api != "messages"]
     rng.shuffle(combos)
-    for h, api, (mode, turns, fb) in combos[: (n if tier == "quick" else 3 * n)]:
-        out.append({"kind": "e2e", "mode": mode, "turns": turns, "llm": [h, "Second."], "fallback": fb, "pos": [0], "msgpos": [0], "api": api})
+    for h, api in combos[: (n // 2 if tier == "quick" else 2 * n)]:
+        out.append({"kind": "e2e", "mode": "passthrough" if api != "verbose" else "general", "turns": ["zzz"], "llm": [h, "Second."], "fallback": "fb", "pos": [0], "msgpos": [0], "api": api})
     # (3) the hostile corpus / mutations at any position through the other public interfaces; (4) the stored-then-quoted payloads likewise
     plain = all_control_bases()
     for _ in range(n // 2):
